@@ -5,6 +5,7 @@ package static
 import (
 	"fmt"
 
+	apiv1 "k8s.io/api/core/v1"
 	metav1 "k8s.io/apimachinery/pkg/apis/meta/v1"
 	"sigs.k8s.io/controller-runtime/pkg/client"
 	gatewayv1 "sigs.k8s.io/gateway-api/apis/v1"
@@ -208,12 +209,87 @@ func c03Policies(r *vu.Rng, c *vsCluster) (objs []client.Object, np bool, tags [
 	return objs, np, tags
 }
 
+// vpObjectsHook, when set, rewrites the typed objects of a state before vpRunStateWith delivers them.
+var vpObjectsHook func([]client.Object) []client.Object
+
+// c03TLSLayer adds TLS passthrough to the typed objects of a state: one to three TLS listeners on the first Gateway of the
+// configured class (two ports, so that listeners share a port; no / exact / wildcard hostnames), one to three TLSRoutes
+// (parentRefs with and without sectionName, one of them twice; hostnames that several listeners accept) and their backend.
+func c03TLSLayer(r *vu.Rng, objs []client.Object) []client.Object {
+	pass := gatewayv1.TLSModePassthrough
+	all := gatewayv1.NamespacesFromAll
+	var gw *gatewayv1.Gateway
+	for _, o := range objs {
+		if g, ok := o.(*gatewayv1.Gateway); ok && string(g.Spec.GatewayClassName) == vpClassName && gw == nil {
+			gw = g
+		}
+	}
+	if gw == nil {
+		return objs
+	}
+	lhosts := []string{"", "*.example.com", "app.example.com", "*.app.example.com"}
+	nl := 1 + r.Intn(3)
+	for k := 0; k < nl; k++ {
+		l := gatewayv1.Listener{Name: gatewayv1.SectionName(fmt.Sprintf("tls%d", k)), Port: gatewayv1.PortNumber([]int32{9443, 9443, 9444}[r.Intn(3)]), Protocol: gatewayv1.TLSProtocolType,
+			TLS: &gatewayv1.GatewayTLSConfig{Mode: &pass}, AllowedRoutes: &gatewayv1.AllowedRoutes{Namespaces: &gatewayv1.RouteNamespaces{From: &all}}}
+		h := lhosts[r.Intn(len(lhosts))]
+		if h != "" {
+			l.Hostname = helpers.GetPointer(gatewayv1.Hostname(h))
+		}
+		// the CRD (CEL) requires port, protocol and hostname together to be unique per listener
+		dup := false
+		for _, x := range gw.Spec.Listeners {
+			xh := ""
+			if x.Hostname != nil {
+				xh = string(*x.Hostname)
+			}
+			if x.Port == l.Port && x.Protocol == l.Protocol && xh == h {
+				dup = true
+			}
+		}
+		if dup {
+			l.Port = gatewayv1.PortNumber(9450 + k)
+		}
+		gw.Spec.Listeners = append(gw.Spec.Listeners, l)
+	}
+	rhosts := []string{"app.example.com", "x.app.example.com", "*.example.com", "other.example.com", "*.app.example.com"}
+	for k, nr := 0, 1+r.Intn(3); k < nr; k++ {
+		tr := &v1alpha2.TLSRoute{ObjectMeta: metav1.ObjectMeta{Namespace: gw.Namespace, Name: fmt.Sprintf("tlsr%d", k), CreationTimestamp: vsTime(int64(r.Intn(3)))},
+			Spec: v1alpha2.TLSRouteSpec{Rules: []v1alpha2.TLSRouteRule{{BackendRefs: []v1alpha2.BackendRef{vsBackendObj(vsBackend{Name: "svc-tls", Port: 443, Weight: 1})}}}}}
+		for x, nx := 0, 1+r.Intn(2); x < nx; x++ {
+			tr.Spec.Hostnames = append(tr.Spec.Hostnames, v1alpha2.Hostname(rhosts[r.Intn(len(rhosts))]))
+		}
+		ref := gatewayv1.ParentReference{Name: gatewayv1.ObjectName(gw.Name)}
+		switch r.Intn(3) {
+		case 0:
+			tr.Spec.ParentRefs = []gatewayv1.ParentReference{ref}
+		case 1:
+			ref.SectionName = helpers.GetPointer(gatewayv1.SectionName(fmt.Sprintf("tls%d", r.Intn(nl))))
+			tr.Spec.ParentRefs = []gatewayv1.ParentReference{ref}
+		default:
+			a, b := ref, ref
+			a.SectionName = helpers.GetPointer(gatewayv1.SectionName("tls0"))
+			b.SectionName = helpers.GetPointer(gatewayv1.SectionName(fmt.Sprintf("tls%d", nl-1)))
+			tr.Spec.ParentRefs = []gatewayv1.ParentReference{a, b}
+		}
+		objs = append(objs, tr)
+	}
+	objs = append(objs, &apiv1.Service{ObjectMeta: metav1.ObjectMeta{Namespace: gw.Namespace, Name: "svc-tls"},
+		Spec: apiv1.ServiceSpec{IPFamilies: []apiv1.IPFamily{apiv1.IPv4Protocol}, Ports: []apiv1.ServicePort{{Name: "p443", Port: 443}}}})
+	objs = append(objs, c01Slice(gw.Namespace, "svc-tls", "x1", []string{"10.1.1.1"}, true, 1))
+	return objs
+}
+
 // vpRunStateWith is vpRunState plus typed extra objects; withParams points every GatewayClass at NginxProxy np.
 func vpRunStateWith(c *vsCluster, plus bool, extra []client.Object, withParams bool) *vpWorld {
 	w := vpNewWorld(plus)
 	evs := vpBaseEvents()
 	evs = append(evs, w.vpPlusEvents()...)
-	for _, o := range c.Objects() {
+	objs := c.Objects()
+	if vpObjectsHook != nil {
+		objs = vpObjectsHook(objs)
+	}
+	for _, o := range objs {
 		if gc, ok := o.(*gatewayv1.GatewayClass); ok && withParams {
 			gc.Spec.ParametersRef = &gatewayv1.ParametersReference{Group: ngfAPIv1alpha1.GroupName, Kind: "NginxProxy", Name: "np"}
 		}
